@@ -96,7 +96,7 @@ func TestC17(t *testing.T) {
 	r.Rule = "part A: real vigil.New() under the controlled scheduler; p in-flight operations (Begin done, Cease pending, one thread each), b threads running Begin;Cease, w waiters in WaitForActiveVigilsClosed; every configuration with p<=3, b<=2, w<=2 and at most " + fmt.Sprint(maxThreads) + " threads; EVERY interleaving (no preemption bound), made finite by pruning on the state key (vigil counter, per-thread step count and enabledness, cond-var waiter flags). Oracle: no reachable state in which no thread is enabled while a thread is unfinished (exact deadlock detection, no timeouts); a waiter never returns while an operation that was in flight before it started has not begun to cease. Part B: swamp level (see c17b). Non-trivial = executions in which a waiter actually parked in cond.Wait"
 	r.Assumptions = []string{"sequentially consistent memory (scheduling points at synchronisation operations only)", "sync.Cond modelled as enqueue+unlock / wake / relock with a scheduling point between the caller's predicate check and the enqueue"}
 	r.Extra["configurations_vigil"] = len(cfgs)
-	r.Parallel(8, "TestC17", func() {
+	r.Parallel(16, "TestC17", func() {
 		for ci, c := range cfgs {
 			if !r.Mine(ci) {
 				continue
